@@ -37,6 +37,7 @@ RULE = (
     ' Round 5: deliveries carry QoS 0-2 and the retain flag; payloads contain VT/FF/FS-RS/NEL/LS/PS/CR; `deliver_odd` sends topics with empty or odd levels (the next read is the literal line, a transport error or the following message).'
     ' Round 6: `cancelled_read k` (reader cancelled after k loop iterations: what it did not return stays owed); BOM/NUL/backslash payloads enumerated.'
     ' Round 7: prefix levels with regex/format/shell metacharacters; constructor failure for a legal prefix is a violation.'
+    ' Round 8: `write_while_reading`.'
 )
 ASSUMPTIONS = [
     "aiomysensors.transport.mqtt.AsyncioClient is replaced by a fake (the name the repository's tests patch); paho and the network are trusted",
